@@ -120,7 +120,10 @@ def _wrun(job):
 
 def _wshrink(args):
     case, sig, budget = args
-    return shrink(_PROP, case, sig, budget_s=budget)
+    small, steps = shrink(_PROP, case, sig, budget_s=budget)
+    out = safe_run(_PROP, small)
+    v = next((x for x in out['violations'] if x['signature'] == sig), None)
+    return small, steps, v
 
 
 # ------------------------------------------------------------- findings ----
@@ -407,7 +410,9 @@ def run_check(pid, tier, seconds=None, runs=None, workers=None, verif_seed=None)
         small, nshr = case, 0
         if not sig.startswith('crash@'):
             try:
-                small, nshr = ex.submit(_wshrink, (case, sig, getattr(prop, 'SHRINK_SECONDS', 60))).result(timeout=600)
+                small, nshr, v2 = ex.submit(_wshrink, (case, sig, getattr(prop, 'SHRINK_SECONDS', 60))).result(timeout=600)
+                if v2 is not None:
+                    v = v2
             except Exception:
                 kill_pool(ex)
                 ex = _make_pool(pid, workers)
